@@ -6,6 +6,8 @@ fixpoint is "subject `u` holds the relation", and the reducer lemmas for the wil
 import OpenFGAVerif.Proofs.ListUsersBasic
 import OpenFGAVerif.Spec.BoolSys
 
+set_option linter.unusedSectionVars false
+
 namespace OpenFGAVerif.ListUsers
 open OpenFGAVerif.BoolSys
 
